@@ -40,7 +40,16 @@ Theorem C11_walk : forall children comps c,
   In (comps, c) (walk_root children) <-> file_at children comps c /\ Forall (fun n => is_hidden n = false) comps.
 Proof. exact walk_spec. Qed.
 
+(* exclusion lists follow gitignore semantics: the last matching pattern decides, "!pattern" re-includes;
+   without negated patterns a file is excluded iff some pattern matches it *)
+Theorem C11_exclusion_semantics : forall patterns line comps,
+  excluded (patterns ++ [line]) comps = excluded_step comps (excluded patterns comps) line /\
+  (forallb (fun l => negb (negated l)) patterns = true ->
+   excluded patterns comps = existsb (fun l => matches (classify l) comps) patterns).
+Proof. intros. split; [apply excluded_last_decides|apply excluded_without_negation]. Qed.
+
 Print Assumptions C11_iff.
+Print Assumptions C11_exclusion_semantics.
 Print Assumptions C11_key_language_checksum.
 Print Assumptions C11_once.
 Print Assumptions C11_not_analysed.
